@@ -24,6 +24,9 @@ pub struct RunStats {
     pub shape: u64,
     pub interleaving: u64,
     pub extra_runs: u64,
+    /// a written-out rendering of the case, where the scenario itself does not show it
+    #[serde(default)]
+    pub sample: Option<String>,
 }
 
 pub struct Checked {
@@ -43,6 +46,7 @@ pub fn batches(prop: &str, tier: &str) -> Vec<(&'static str, u64)> {
         "C01" | "C02" | "C04" | "C07" => vec![("fault-free", t(120_000)), ("faults", t(80_000))],
         "C03" => vec![("fault-free", t(160_000)), ("user-faults", t(40_000))],
         "C10" => vec![("fine", t(100_000))],
+        "C20" => vec![("fault-free", t(150_000)), ("faults", t(250_000))],
         "C11" => vec![("crash", t(64_000)), ("caught-user-panics", t(100_000))],
         "C18" => vec![("permute", t(60_000)), ("reroute", t(40_000)), ("two-mocks", t(40_000)), ("relabel", t(40_000)), ("mixed", t(40_000))],
         "C16" => vec![("fault-free", t(120_000)), ("faults", t(40_000)), ("executor", t(60_000))],
@@ -164,6 +168,17 @@ pub fn generate(prop: &str, base_seed: u64, batch: &str, run: u64) -> Scenario {
     match prop {
         "C01" | "C02" | "C03" | "C04" | "C07" => gen_coarse(prop, base_seed, batch, run, &mut rng),
         "C10" => crate::fine::gen_c10(base_seed, batch, run, &mut rng),
+        "C20" => Scenario {
+            prop: "C20".into(),
+            base_seed,
+            run,
+            batch: batch.to_string(),
+            config: Config::default(),
+            config2: None,
+            threads: vec![],
+            sched: SchedSpec { fine: false, strategy: Strategy::RoundRobin, seed: 0, sites: 0, choices: vec![] },
+            knobs: vec![("io_seed".into(), (rng.next() >> 1) as i64), ("group".into(), (run % crate::ioworld::GROUPS.len() as u64) as i64)],
+        },
         "C11" => crate::crash::gen_c11(base_seed, batch, run, &mut rng),
         "C18" => crate::twin::gen_c18(base_seed, batch, run, &mut rng),
         "C16" => crate::twin::gen_c16(base_seed, batch, run, &mut rng),
@@ -324,6 +339,7 @@ pub fn check_in_process(scn: &Scenario) -> Checked {
     match scn.prop.as_str() {
         "C01" | "C02" | "C03" | "C04" | "C07" => check_coarse(scn),
         "C10" => crate::fine::check_c10(scn),
+        "C20" => crate::ioworld::check_c20(scn),
         "C11" => crate::crash::check_c11(scn),
         "C18" => crate::twin::check_c18(scn),
         "C16" => crate::twin::check_c16(scn),
